@@ -528,6 +528,21 @@ macro_rules! world_spec {
                     _ => panic!("sim: bad site index"),
                 }
             }
+            fn find_unit(&mut self, borrow: bool, key: Key) -> bool {
+                match (key, borrow) {
+                    (Key::A(k), false) => ecs_find!(self, k, || true).unwrap_or(false),
+                    (Key::DA(k), false) => ecs_find!(self, k, || true).unwrap_or(false),
+                    (Key::A(k), true) => {
+                        let w: &Self = &*self;
+                        ecs_find_borrow!(w, k, || true).unwrap_or(false)
+                    }
+                    (Key::DA(k), true) => {
+                        let w: &Self = &*self;
+                        ecs_find_borrow!(w, k, || true).unwrap_or(false)
+                    }
+                    _ => panic!("sim: find_unit takes dynamic keys"),
+                }
+            }
             fn query_borrow(&self, site: usize, mac: QMacro, key: Option<Key>, hook: &mut dyn VisitHook<Self>) -> Option<Step> {
                 match site {
                     $( $sidx => $S::run_borrow(self, mac, key, hook), )*
@@ -704,7 +719,7 @@ pub mod wa {
     // a cfg-disabled parameter behaves as if it had not been written: this site must match
     // exactly what `|e: &EntityAny, a: &mut CompA|` matches (P, Q, T), not only ArchT
     site!(S11, WA, w,
-        params = [e: &EntityAny, #[cfg(any())] _off: &EntityDirect<ArchT>, a: &mut CompA, #[cfg(any())] _off2: &CompS],
+        params = [e: &EntityAny, #[cfg(any())] _off: &EntityDirect<ArchT>, #[cfg(all())] a: &mut CompA, #[cfg(any())] _off2: &CompS],
         ent = abits(*e), dir = None, cols = [ColRef::W(a)],
         other = None);
 
